@@ -31,6 +31,8 @@ _state = {
     'lines': {},            # code -> frozenset(while header lines)
     'names': {},            # code -> 'file.py:func'
     'pkg_dir': None,
+    'probes': {},           # code -> {line: name}   (branch-coverage probes, never raise)
+    'probe_hits': {},       # name -> hits in the current guarded call
 }
 
 
@@ -60,6 +62,10 @@ def _collect_code(code, acc):
 def _on_line(code, line):
     st = _state
     wl = st['lines'].get(code)
+    pr = st['probes'].get(code)
+    if pr is not None and line in pr:
+        st['probe_hits'][pr[line]] = st['probe_hits'].get(pr[line], 0) + 1
+        return None
     if wl is None or line not in wl or st['limit'] is None:
         return mon.DISABLE if (wl is None or line not in wl) else None
     key = (code, line)
@@ -149,12 +155,39 @@ def uninstall():
     st['installed'] = False
 
 
+def add_probe(func, needle, name):
+    """Count how often the source line of `func` containing `needle` starts executing during a
+    guarded call (used to measure that a generator reaches a branch).  Returns False if the line
+    cannot be found (e.g. after a refactoring) - the probe is then simply absent."""
+    import inspect
+    f = getattr(func, 'py_func', func)
+    code = f.__code__
+    try:
+        lines, first = inspect.getsourcelines(f)
+    except (OSError, TypeError):
+        return False
+    for i, text in enumerate(lines):
+        if needle in text:
+            _state['probes'].setdefault(code, {})[first + i] = name
+            if code not in _state['lines']:
+                _state['lines'][code] = frozenset()
+                _state['names'][code] = os.path.basename(code.co_filename) + ':' + code.co_name
+            mon.set_local_events(TOOL, code, mon.events.LINE | mon.events.PY_START)
+            return True
+    return False
+
+
+def probe_hits():
+    return dict(_state['probe_hits'])
+
+
 def guarded(bound, f, *a, **k):
     """Call f(*a, **k) with every package `while` header limited to `bound` executions per
     function invocation.  Returns the result; raises LoopBound if a loop exceeds the bound."""
     st = _state
     st['counts'].clear()
     st['peak'] = {}
+    st['probe_hits'] = {}
     st['hit'] = None
     st['limit'] = int(bound)
     mon.restart_events()
